@@ -11,7 +11,7 @@ RULE = ('(a) every byte string of length 0, 1 and 2 (65 793); (b) length 3: ever
         'must give back the string; each NUL-free string goes through rfc1738_do_escape with the 5 flag sets that escape "%" '
         '(rfc1738_escape, rfc1738_escape_part, ...) and rfc1738_unescape must give back the string; 4 further flag sets and all '
         'decoder inputs of (c) run under the memory oracle; Uri::Decode is compared with a reference decoder on well-formed '
-        'input. non-trivial = cases in which at least one %XX triplet was produced, plus decoder inputs containing "%"')
+        'input. non-trivial = cases in which at least one %XX triplet was produced (with the unreserved set or by rfc1738_escape), plus decoder inputs containing "%"')
 ASSUME = ['src/anyp/Uri.cc and lib/rfc1738.cc are recompiled from the scratch copy of the current tree with '
           '-fsanitize=address,undefined; inputs and in-place buffers are exact-size heap blocks, rfc1738_do_escape sizes its static '
           'result buffer exactly (3n+1), so ASan is the out-of-bounds oracle',
@@ -37,7 +37,7 @@ def run(ctx):
                      ('decode:malformed-rejected', 100)):
             if oc.get(k, 0) < n:
                 raise HarnessError('vacuity guard: outcome class %s seen %d times' % (k, oc.get(k, 0)))
-        if c.get('triplets_produced', 0) < 10000 or c.get('escape_buffer_growths', 0) < 16:
+        if c.get('triplets_produced', 0) < 10000 or c.get('escape_buffer_growths', 0) < 5:
             raise HarnessError('vacuity guard: counters %r' % c)
     for k in ('encode_calls', 'decode_calls', 'escape_calls', 'unescape_calls', 'triplets_produced'):
         cov[k] = c.get(k, 0)
